@@ -2,8 +2,10 @@
 """import_seed.py <Cxx> : copy /tmp/wt_<Cxx>/SEED/{a,b} into /verif/seeded/<Cxx>_{a,b}/ with BUILD + meta.json skeleton."""
 import json, os, re, shutil, sys
 pid = sys.argv[1]
-for v in ("a", "b"):
-    src = "/tmp/wt_%s/SEED/%s" % (pid, v)
+variants = sys.argv[2] if len(sys.argv) > 2 else "ab"
+root = sys.argv[3] if len(sys.argv) > 3 else "/tmp/wt_%s"
+for v in variants:
+    src = (root % pid) + "/SEED/" + v
     if not os.path.isdir(src):
         print("missing", src); continue
     dst = "/verif/seeded/%s_%s" % (pid, v)
